@@ -97,9 +97,9 @@ impl ParseData for FromMetaOptions {
 
         match self.base.data {
             Data::Struct(ref data) => {
-                if data.is_tuple() && data.len() > 1 {
+                if data.is_tuple() && data.len() != 1 {
                     errors.push(
-                        Error::custom("Tuple structs with more than one field are not supported")
+                        Error::custom("Only tuple structs with exactly one field are supported")
                             .with_span(&self.base.ident),
                     );
                 }
@@ -115,7 +115,7 @@ impl ParseData for FromMetaOptions {
             Data::Enum(ref data) => {
                 for variant in data.iter().filter(|v| v.is_unsupported_tuple()) {
                     errors.push(
-                        Error::custom("Tuple variants with more than one field are not supported")
+                        Error::custom("Only tuple variants with exactly one field are supported")
                             .with_span(&variant.ident),
                     );
                 }
